@@ -320,7 +320,7 @@ def part4(tier, ev, fnd):
         return ('abi <abi/4.0>,\n\ninclude <tunables/global>\n\n@{exec_path} = @{bin}/%s\nprofile %s @{exec_path} {\n  include <abstractions/base>\n\n  @{exec_path} mr,\n\n  %s\n\n'
                 '  include if exists <local/%s>\n}\n' % (n, n, directive, n))
     helper = ('abi <abi/4.0>,\n\ninclude <tunables/global>\n\n@{exec_path} = @{bin}/verif-c02-mmm\n@{exec_path} += @{lib}/verif-c02-mmm\nprofile verif-c02-mmm @{exec_path} flags=(complain) {\n  include <abstractions/base>\n\n'
-              '  @{exec_path} mr,\n  @{bin}/verif-x rPx,\n  @{bin}/verif-y rPUx,\n  /etc/verif-c02 r,\n\n  profile sub flags=(complain) {\n    include <abstractions/base>\n    /etc/verif-c02.sub r,\n'
+              '  @{exec_path} mr,\n  @{bin}/verif-x rPx,\n  @{bin}/verif-y rPUx,\n  /etc/verif-c02 r,\n\n  #aa:dbus own bus=session name=org.verif.C02\n\n  # an ordinary comment\n  /etc/verif-c02.d/ r,\n\n  profile sub flags=(complain) {\n    include <abstractions/base>\n    /etc/verif-c02.sub r,\n'
               '    include if exists <local/verif-c02-mmm_sub>\n  }\n\n  include if exists <local/verif-c02-mmm>\n}\n')
     extra = {'apparmor.d/groups/apps/verif-c02-mmm': helper}
     for kind, d in (('stackx', '#aa:stack X verif-c02-mmm'), ('stack', '#aa:stack verif-c02-mmm'), ('exec', '#aa:exec verif-c02-mmm')):
@@ -338,6 +338,7 @@ def part4(tier, ev, fnd):
             a = ex.text(trees[c]['apparmor.d/verif-c02-aaa-' + kind]).replace('verif-c02-aaa-', 'verif-c02-NNN-')
             z = ex.text(trees[c]['apparmor.d/verif-c02-zzz-' + kind]).replace('verif-c02-zzz-', 'verif-c02-NNN-')
             n += 1
+            a = '\n'.join(l for l in a.split('\n') if l.strip()); z = '\n'.join(l for l in z.split('\n') if l.strip())      # blank lines are layout
             if a != z:
                 import difflib
                 d = [l for l in difflib.unified_diff(a.split('\n'), z.split('\n'), 'sorted before its target', 'sorted after its target', lineterm='', n=0) if not l.startswith(('---', '+++', '@@'))]
